@@ -5,6 +5,12 @@ func (cw *CodeWriter) WriteLeadingComments(comments []string) {
 		return
 	}
 
+	// an omitted semicolon is restored before comments and blank lines are written, because the
+	// token that follows them is not known yet
+	if len(comments) > 1 || len(comments[0]) > 0 {
+		cw.restoreSemi(";")
+	}
+
 	for i, comment := range comments {
 		isComment := len(comment) > 0
 		if i == 0 {
